@@ -43,12 +43,15 @@ pub struct Note { pub to: ActorId, pub evt: SupervisionEvent }
 ///  * `rel[a]`     = `actor_relations[a].memberships` (the reverse index)
 ///  * `status[a]`  = the status of `a` as last read through `get_status()` (each read may find it advanced: statuses only grow, C06)
 ///  * `sent`       = notifications handed to listeners, in order
+///  * `listeners[k]` = ids in `map[k].listeners` (the per-group monitors)
 pub tracked struct PgHeap {
     pub ghost members: Map<Key, Set<ActorId>>,
     pub ghost index: Map<Seq<char>, Set<Seq<char>>>,
     pub ghost rel: Map<ActorId, Set<Key>>,
     pub ghost status: Map<ActorId, ActorStatus>,
     pub ghost sent: Seq<Note>,
+    /// `map[k].listeners`: the actors monitoring group `k` (changed only by monitor/demonitor, which are not under contract)
+    pub ghost listeners: Map<Key, Seq<ActorId>>,
 }
 pub open spec fn total(h: PgHeap) -> bool {
     &&& forall|k: Key| #[trigger] h.members.contains_key(k)
@@ -256,16 +259,20 @@ impl MemberMap {
 #[verus_verify]
 impl GOcc {
     #[verus_verify(external_body)]
-    #[verus_spec(r => ensures r.members.key == old(self).key, final(self).key == old(self).key)]
+    #[verus_spec(r =>
+        with Tracked(heap): Tracked<&mut PgHeap>
+        ensures *final(heap) == *old(heap), r.members.key == old(self).key, final(self).key == old(self).key, ids(r.listeners@) == old(heap).listeners[old(self).key])]
     pub fn get_mut(&mut self) -> &mut GroupState { unimplemented!() }
-    #[verus_verify(external_body)]
-    #[verus_spec(r => ensures r.members.key == self.key)]
-    pub fn get(&self) -> &GroupState { unimplemented!() }
-    /// guard: an entry that still has members is never dropped from the map
     #[verus_verify(external_body)]
     #[verus_spec(r =>
         with Tracked(heap): Tracked<&mut PgHeap>
-        requires vacant(*old(heap), self.key)
+        ensures *final(heap) == *old(heap), r.members.key == self.key, ids(r.listeners@) == old(heap).listeners[self.key])]
+    pub fn get(&self) -> &GroupState { unimplemented!() }
+    /// guard: an entry that still has members OR monitors is never dropped from the map
+    #[verus_verify(external_body)]
+    #[verus_spec(r =>
+        with Tracked(heap): Tracked<&mut PgHeap>
+        requires vacant(*old(heap), self.key), old(heap).listeners[self.key].len() == 0
         ensures *final(heap) == *old(heap))]
     pub fn remove(self) -> GroupState { unimplemented!() }
 }
@@ -279,7 +286,9 @@ impl Entry<GOcc, GVac> {
 #[verus_verify]
 impl GRefMut {
     #[verus_verify(external_body)]
-    #[verus_spec(r => ensures r.members.key == old(self).key, final(self).key == old(self).key)]
+    #[verus_spec(r =>
+        with Tracked(heap): Tracked<&mut PgHeap>
+        ensures *final(heap) == *old(heap), r.members.key == old(self).key, final(self).key == old(self).key, ids(r.listeners@) == old(heap).listeners[old(self).key])]
     pub fn value_mut(&mut self) -> &mut GroupState { unimplemented!() }
 }
 #[verus_verify]
@@ -508,7 +517,7 @@ impl KeySet {
 #[verus_spec(
     with Tracked(heap): Tracked<&mut PgHeap>
     ensures final(heap).members == old(heap).members, final(heap).index == old(heap).index, final(heap).rel == old(heap).rel,
-        final(heap).status == old(heap).status, old(heap).sent.is_prefix_of(final(heap).sent),
+        final(heap).status == old(heap).status, final(heap).listeners == old(heap).listeners, old(heap).sent.is_prefix_of(final(heap).sent),
         only_notes(final(heap).sent, old(heap).sent.len() as int, is_join, scope@, group@, ids(actors@)))]
 pub fn notify_world_listeners(monitor: &PgState, scope: &String, group: &String, actors: &Vec<ActorCell>, is_join: bool) { unimplemented!() }
 
